@@ -69,7 +69,11 @@ def run(chk):
     if p.returncode == 0:
         issues = json.loads(p.stdout)
     chk.obligation("search:real-package-vs-metamodel", p.returncode == 0, "s_image.py: %s issues" % (len(issues) if issues is not None else "failed: " + p.stderr[-300:]))
-    if issues:
+    hist = [f for f in fails if f[0] == "history-dependence"]
+    if hist and not issues:
+        chk.violation({"property": "C04", "kind": "the package's class tables (wire names / omit flags / field handlers) depend on converter history",
+                       "input": json.loads(hist[0][2]), "how_to_replay": "VERIF_CONV_CFG=after-foreign python lib/x_pkg.py <out.v> <out.json>  and compare with the run without the variable"})
+    elif issues:
         chk.violation({"property": "C04", "kind": "package differs from the metamodel image", "input": issues[0], "all": issues[:25],
                        "model_explain": witnesses, "how_to_replay": "./check C04 --replay <this file>"})
     elif fails or p.returncode != 0:
